@@ -35,7 +35,7 @@ def main():
             procs[p] = subprocess.Popen([os.path.join(VERIF, "check"), p, "--tier", tier], stdout=subprocess.PIPE, stderr=subprocess.STDOUT, text=True,
                                         cwd=VERIF, env=dict(os.environ, VERIF_JOBS="4"))
             # a few at a time
-            while sum(1 for q in procs.values() if q.poll() is None) >= 5:
+            while sum(1 for q in procs.values() if q.poll() is None) >= 8:
                 time.sleep(0.5)
         for p, q in procs.items():
             out = q.communicate()[0]
